@@ -7,6 +7,8 @@ every element is an example of the selected split (id and content);
 unshuffled: prefix[i] == one_pass[i mod N] where one_pass is the same
 interface's repeat=False pass; Rust interface (shuffled or not): every
 consecutive block of N ids is a permutation of the split.
+Stage ``pause``: the consumer pauses for 11 / 21 s between two elements (idle
+timeouts of worker threads); the stream must go on.
 Stage ``long``: the same oracle on a tiny split (1..3 examples) consumed for
 1200 (thorough: up to 6000) epochs -- anything that accumulates per epoch
 (nesting depth, open files, threads) ends an "endless" stream only there.
@@ -67,6 +69,8 @@ def strategy_case(draw, tier):
                 "fp": st.integers(1, 3),
                 "pattern": st.lists(st.integers(0, 1), min_size=6,
                                     max_size=60),
+                # the first of the two streams may be a shuffled one
+                "shuffle0": st.sampled_from([0, 0, 3]),
             })))
     reent = draw(
         st.one_of(
@@ -113,11 +117,13 @@ def strategy_long(draw, tier):
 
 
 def run_case(case, ctx):
+    from sedpack.io import Dataset
     b = iter_common.BuiltDataset(case, ctx, "c19")
     try:
         if not b.ok:
             return
         desc = b.desc
+        fresh = Dataset(b.h.root)
         ctx.label("fmt=" + desc["fmt"])
         for r in case["reads"]:
             iface = iter_common.resolve_iface(r["iface"], desc)
@@ -158,9 +164,12 @@ def run_case(case, ctx):
                              f"of {split}")
                 ids.append(i)
             if shuffle == 0:
+                # the one-pass sequence, taken from a freshly opened handle
+                # (C03: identical on every handle) so that nothing the kept
+                # handle did before can bend both sides the same way
                 one = [
                     dsops.ex_id_of(e) for e in dsops.read_all(
-                        b.h.ds, split, iface, **{
+                        fresh, split, iface, **{
                             **opts, "repeat": False, "batch_size": 0
                         } if iface == "tfdata" else {
                             **opts, "repeat": False
@@ -234,15 +243,18 @@ def run_case(case, ctx):
                 if b.n_examples(split) > 60:
                     streams = []
                     break
-                opts = {"shuffle": 0, "repeat": True}
+                opts = {"shuffle": pair.get("shuffle0", 0) if k == 0 else 0,
+                        "repeat": True}
                 if dsops.iface_accepts(iface, "file_parallelism"):
                     opts["file_parallelism"] = pair["fp"]
                 one = [
                     dsops.ex_id_of(e) for e in dsops.read_all(
-                        b.h.ds, split, iface, **{**opts, "repeat": False})
+                        fresh, split, iface,
+                        **{**opts, "repeat": False, "shuffle": 0})
                 ]
                 streams.append({
                     "iface": iface, "split": split, "one": one, "pos": 0,
+                    "shuffled": bool(opts["shuffle"]),
                     "it": dsops.open_iter(b.h.ds, split, iface, **opts)
                 })
             try:
@@ -260,7 +272,14 @@ def run_case(case, ctx):
                         if not ok:
                             break
                         want = st_["one"][st_["pos"] % len(st_["one"])]
-                        if dsops.ex_id_of(ex) != want:
+                        if st_["shuffled"]:
+                            if dsops.ex_id_of(ex) not in st_["one"]:
+                                ctx.fail(
+                                    "membership", ("foreign-example",
+                                                   st_["iface"]),
+                                    f"{what}: shuffled stream {which} yields "
+                                    f"id {dsops.ex_id_of(ex)}")
+                        elif dsops.ex_id_of(ex) != want:
                             ctx.fail(
                                 "periodic", ("interleaved-not-periodic",
                                              st_["iface"]),
@@ -344,6 +363,67 @@ def reentrant_generator(case, ctx, b):
                     reent["finalise"]])
 
 
+@st.composite
+def strategy_pause(draw, tier):
+    """A consumer that does something else for a while between two elements
+    (validation, checkpointing): the stream is still endless afterwards."""
+    desc = draw(iter_common.st_iter_desc(tier, formats=["fb"] * 3 + ["npz"],
+                                         eps=st.integers(1, 2)))
+    return {
+        "desc": desc,
+        "n": draw(st.integers(6, 14)),
+        "iface": draw(st.integers(0, 9)),
+        "shuffle": draw(st.sampled_from([0, 2, 5])),
+        "fp": draw(st.integers(1, 3)),
+        "before": draw(st.integers(1, 9)),
+        "pause_s": draw(st.sampled_from([11, 11, 21])),
+    }
+
+
+def run_pause(case, ctx):
+    import time
+    desc = case["desc"]
+    root = __import__("vlib.env", fromlist=["x"]).scratch_dir("c19p")
+    try:
+        ds = dsops.create_dataset(root / "ds", desc)
+        n = case["n"]
+        dsops.filler_session(ds, desc, [["train", list(range(n)), None]])
+        iface = iter_common.resolve_iface(case["iface"], desc)
+        opts = {"shuffle": case["shuffle"], "repeat": True}
+        if dsops.iface_accepts(iface, "file_parallelism"):
+            opts["file_parallelism"] = case["fp"]
+        what = (f"{iface} N={n} shuffle={case['shuffle']} file_parallelism="
+                f"{case['fp']} fmt={desc['fmt']}: {case['before']} elements, "
+                f"{case['pause_s']} s pause, then {3 * n + 40} more")
+
+        def scenario():
+            it = dsops.open_iter(ds, "train", iface, **opts)
+            out = []
+            try:
+                for _ in range(case["before"]):
+                    out.append(dsops.ex_id_of(next(it)))
+                time.sleep(case["pause_s"])
+                for _ in range(3 * n + 40):
+                    out.append(dsops.ex_id_of(next(it)))
+            finally:
+                close = getattr(it, "close", None)
+                if close:
+                    close()
+            return out
+
+        ok, ids = oracles.guarded(ctx, "endless",
+                                  ("stream-ended-after-pause", iface), what,
+                                  scenario)
+        if ok and any(not 0 <= i < n for i in ids):
+            ctx.fail("membership", ("foreign-example", iface), f"{what}: {ids}")
+        ctx.label("pause", "iface=" + iface)
+        ctx.evaluated()
+        ctx.nontrivial(["pause", iface, case["shuffle"] > 0, case["pause_s"],
+                        desc["fmt"]])
+    finally:
+        dsops.rmtree(root)
+
+
 def _stalls(case):
     return ("endless", ("stream-stalls",),
             f"a repeating stream stopped delivering examples (no result "
@@ -352,12 +432,25 @@ def _stalls(case):
 
 
 STAGES = [
+    Stage(name="pause",
+          run=run_pause,
+          strategy=lambda tier: strategy_pause(tier),
+          examples={
+              "quick": 16,
+              "thorough": 160
+          },
+          fork=True,
+          rust=True,
+          timeout=150,
+          timeout_violation=lambda case: (
+              "endless", ("stream-stalls-after-pause",),
+              f"a repeating stream did not deliver after a pause: {case}")),
     Stage(name="long",
           run=run_case,
           strategy=lambda tier: strategy_long(tier),
           examples={
               "quick": 32,
-              "thorough": 600
+              "thorough": 240
           },
           fork=True,
           rust=True,
